@@ -338,7 +338,7 @@ func (c *Ctx) guardedBy(table []gField, minAccesses int) {
 			total += len(acc)
 			name := c.nm(fn)
 			top := c.nm(outermost(fn))
-			construct := fmt.Sprintf("field %s guarded by %s | %s", row.field.Name(), row.mutex.Name(), name)
+			construct := fmt.Sprintf("field %s guarded by %s | %s", c.on(row.field), c.on(row.mutex), name)
 			if why, ok := row.exempt[top]; ok {
 				c.pass(construct, c.P.Pos(fn.Pos()), "tabled exemption: "+why, fmt.Sprintf("%d access(es)", len(acc)))
 				continue
@@ -354,11 +354,11 @@ func (c *Ctx) guardedBy(table []gField, minAccesses int) {
 							continue
 						}
 					}
-					bad = append(bad, fmt.Sprintf("%s of %s at %s without %s", a.kind, row.field.Name(), c.at(a.in), row.mutex.Name()))
+					bad = append(bad, fmt.Sprintf("%s of %s at %s without %s", a.kind, c.on(row.field), c.at(a.in), c.on(row.mutex)))
 					continue
 				}
 				if a.kind == accWrite && mode != "W" {
-					bad = append(bad, fmt.Sprintf("write of %s at %s under the read lock only", row.field.Name(), c.at(a.in)))
+					bad = append(bad, fmt.Sprintf("write of %s at %s under the read lock only", c.on(row.field), c.at(a.in)))
 				}
 			}
 			sort.Strings(bad)
@@ -366,7 +366,7 @@ func (c *Ctx) guardedBy(table []gField, minAccesses int) {
 			if len(bad) > 0 {
 				c.fail(construct, c.at(acc[0].in), join(bad), sites...)
 			} else {
-				c.pass(construct, c.P.Pos(fn.Pos()), fmt.Sprintf("%d access(es) all under %s in the required mode", len(acc), row.mutex.Name()), sites...)
+				c.pass(construct, c.P.Pos(fn.Pos()), fmt.Sprintf("%d access(es) all under %s in the required mode", len(acc), c.on(row.mutex)), sites...)
 			}
 		}
 	}
